@@ -1,5 +1,162 @@
 import ZoektModel.Basic.Proto
+import ZoektModel.C35.Spec
 namespace ZoektModel.C35
-/-- stub: no model driver for C35 yet -/
-def main : IO Unit := ZoektModel.Proto.runLines (fun _ => ZoektModel.Proto.badCase "no model driver for C35")
+open ZoektModel ZoektModel.Proto
+
+/-! line protocol (see harness/cmd/c35/main.go)
+
+  merge   <dst> <names> <dir0> <faults> <kill>
+  explode <input> <name=base,…> <dir0> <renameOrder> <cleanOrder> <faults> <kill>
+
+`dir0` entries are separated by `|`: `z:<base>=<name>:<tomb>:<ndocs>;…`, `zj:<base>` (not a shard), `m:<base>=<name>:<tomb>;…`,
+`t:<base>`, `r:<base>`, `o:<name>`.  `faults`: indices of the operations that fail by injection; `kill`: number of
+operations completed before SIGKILL, `-` = not killed.
+answer / implementation: `exit=<0:out|1|killed> trace=<op,…> init=<listing> dir=<listing>`; a listing shows for every
+`*.zoekt` file the live repositories a reader sees (`name:ndocs`, sorted).
+-/
+
+def kindTag : Kind → String
+  | .shard => "z" | .sidecar => "m" | .tmp => "t" | .tmptmp => "r" | .other => "o"
+
+def showPath (p : Path) : String := kindTag p.kind ++ ":" ++ p.base
+
+def showRes : Res → String
+  | .ok => "" | .natural => "?" | .injected => "!"
+
+def showOp : Op → String
+  | .openRd p => "open:" ++ showPath p
+  | .stat p => "stat:" ++ showPath p
+  | .create p => "create:" ++ showPath p
+  | .fdop w p => w ++ ":" ++ showPath p
+  | .rename a b _ => "rename:" ++ showPath a ++ ">" ++ showPath b
+  | .remove p => "remove:" ++ showPath p
+
+def sortStrings (l : List String) : List String := l.mergeSort (fun a b => decide (a ≤ b))
+
+def showEntry (d : Dir) : Path × File → String
+  | (⟨.shard, b⟩, .shard rs) =>
+    let live := (effective d b rs).filter (fun r => !r.tomb)
+    "z:" ++ b ++ "=" ++ ";".intercalate (sortStrings (live.map fun r => s!"{r.name}:{r.ndocs}"))
+  | (⟨.shard, b⟩, _) => "z:" ++ b ++ "=JUNK"
+  | (p, _) => showPath p
+
+def showDir (d : Dir) : String :=
+  if d.isEmpty then "-" else "|".intercalate (sortStrings (d.map (showEntry d)))
+
+def splitList (sep : String) (s : String) : List String :=
+  if s == "-" || s == "" then [] else s.splitOn sep
+
+def parseRepo3 (s : String) : Option Repo :=
+  match s.splitOn ":" with
+  | [n, t, k] => do pure ⟨n, ← bool? t, ← k.toNat?⟩
+  | _ => none
+
+def parseRepo2 (s : String) : Option Repo :=
+  match s.splitOn ":" with
+  | [n, k] => do pure ⟨n, false, ← k.toNat?⟩
+  | _ => none
+
+def parseMeta (s : String) : Option (String × Bool) :=
+  match s.splitOn ":" with
+  | [n, t] => do pure (n, ← bool? t)
+  | _ => none
+
+/-- `observed = true`: a listing as printed by `showDir` / the harness -/
+def parseEntry (observed : Bool) (s : String) : Option (Path × File) :=
+  let (head, body) := match s.splitOn "=" with
+    | [h] => (h, none)
+    | [h, b] => (h, some b)
+    | _ => ("", none)
+  match head.splitOn ":", body with
+  | ["z", b], some body =>
+    if body == "JUNK" then some (⟨.shard, b⟩, .junk) else do
+      let rs ← (splitList ";" body).mapM (if observed then parseRepo2 else parseRepo3)
+      pure (⟨.shard, b⟩, .shard rs)
+  | ["zj", b], none => some (⟨.shard, b⟩, .junk)
+  | ["m", b], some body => do
+      let ms ← (splitList ";" body).mapM parseMeta
+      pure (⟨.sidecar, b⟩, .sidecar ms)
+  | ["m", b], none => some (⟨.sidecar, b⟩, .junk)
+  | ["t", b], none => some (⟨.tmp, b⟩, .junk)
+  | ["r", b], none => some (⟨.tmptmp, b⟩, .junk)
+  | ["o", b], none => some (⟨.other, b⟩, .junk)
+  | _, _ => none
+
+def parseDir (observed : Bool) (s : String) : Option Dir := (splitList "|" s).mapM (parseEntry observed)
+
+def parseKill (s : String) : Option (Option Nat) :=
+  if s == "-" then some none else s.toNat?.map some
+
+def showExit : Option Exit → String
+  | none => "killed"
+  | some .err => "1"
+  | some (.ok out) => "0:" ++ (if out.isEmpty then "-" else out)
+
+def parseExit (s : String) : Option (Option Exit) :=
+  if s == "killed" then some none
+  else if s == "1" then some (some .err)
+  else if s.startsWith "0:" then
+    let o := (s.drop 2).toString
+    some (some (.ok (if o == "-" then "" else o)))
+  else none
+
+def field (name : String) (fs : List String) : Option String :=
+  (fs.find? (·.startsWith (name ++ "="))).map fun f => (f.drop (name.length + 1)).toString
+
+/-- outcome of a (possibly killed) run of `p` on `d0` -/
+def outcome (p : Prog) (d0 : Dir) (faults : List Nat) (kill : Option Nat) : String :=
+  let (steps, e) := run (fun n => faults.contains n) p 0 d0
+  let (steps, exit) := match kill with
+    | none => (steps, some e)
+    | some k => (steps.take k, none)
+  let fin := match steps.getLast? with
+    | none => d0
+    | some s => s.dir
+  let tr := steps.map (fun s => showOp s.op ++ showRes s.res) ++ (if exit.isNone then ["KILL"] else [])
+  s!"exit={showExit exit} trace={showList id tr} init={showDir d0} dir={showDir fin}"
+
+def verdict (c : Cmd) (d0 : Dir) (model impl : String) : String :=
+  let fs := fields impl
+  match field "exit" fs, field "dir" fs with
+  | some e, some d =>
+    match parseExit e, parseDir true d with
+    | some exit, some fin =>
+      match checkP c d0 exit fin with
+      | none => answer model
+      | some key => specFail model key
+    | _, _ => badCase "impl exit/dir"
+  | _, _ => badCase "impl fields"
+
+def parseSimple (s : String) : Option (List (String × String)) :=
+  (splitList "," s).mapM fun e =>
+    match e.splitOn "=" with
+    | [a, b] => some (a, b)
+    | _ => none
+
+def lookupSimple (m : List (String × String)) (r : String) : String :=
+  match m.find? (·.1 == r) with
+  | some (_, b) => b
+  | none => "UNKNOWN-" ++ r
+
+def handle (line : String) : String :=
+  let (inp, impl) := splitCase line
+  match fields inp with
+  | ["merge", dst, names, dir0, faults, kill] =>
+    match parseDir false dir0, natList? faults, parseKill kill with
+    | some d0, some fl, some k =>
+      if !d0.wf then badCase "dir0 keys" else
+      let ns := splitList "," names
+      let model := outcome (mergePlan false d0 ns dst) d0 fl k
+      verdict (.merge ns dst) d0 model impl
+    | _, _, _ => badCase "merge fields"
+  | ["explode", input, simple, dir0, ro, co, faults, kill] =>
+    match parseDir false dir0, natList? faults, parseKill kill, parseSimple simple with
+    | some d0, some fl, some k, some sm =>
+      if !d0.wf then badCase "dir0 keys" else
+      let model := outcome (explodePlan false d0 input (lookupSimple sm) (splitList "," ro) (splitList "," co)) d0 fl k
+      verdict (.explode input (lookupSimple sm)) d0 model impl
+    | _, _, _, _ => badCase "explode fields"
+  | _ => badCase "op"
+
+def main : IO Unit := runLines handle
 end ZoektModel.C35
